@@ -48,7 +48,8 @@ var droppedPrefixes = []string{
 	"github.com/prometheus/client_golang/prometheus.",
 	"go.opentelemetry.io/otel/attribute.",
 	"github.com/ava-labs/avalanchego/utils/timer.(*Timer).",
-	"time.Now", "time.Since", "time.(Time).",
+	"time.Now", "time.Since", "time.(Time).", "time.Date",
+	"fmt.Println", "fmt.Printf",
 }
 
 func isDroppedKey(key string) bool {
